@@ -484,6 +484,7 @@ func compUniverses(fields []string) []universe {
 	}
 	// mutations: one base tuple, each key differing from it in one byte at a position drawn uniformly over the whole
 	// encoded key – branch points at every depth, among them deep inside runs longer than the inline limit
+	deepOnly := false
 	mutateNext := func(r *rand.Rand) string {
 		pin(r)
 		parts := append([]string{}, pinned[0]...)
@@ -497,7 +498,7 @@ func compUniverses(fields []string) []universe {
 		}
 		for m := 0; m < 1+r.Intn(2); m++ {
 			i, pos := r.Intn(len(fields)), -1
-			if total > 0 && r.Intn(2) == 0 {
+			if total > 0 && (deepOnly || r.Intn(2) == 0) {
 				g := total - 1 - r.Intn(min(4, total))
 				for j, f := range fields {
 					if f == "s" {
@@ -538,6 +539,15 @@ func compUniverses(fields []string) []universe {
 		}
 		return strings.Join(parts, ",")
 	}
+	// clusters whose long shared run is left, by some keys, a few bytes before its end
+	deepNext := func(r *rand.Rand) string {
+		if r.Intn(2) == 0 {
+			return clusterNext(r)
+		}
+		deepOnly = true
+		defer func() { deepOnly = false }()
+		return mutateNext(r)
+	}
 	return []universe{{name: "comp", next: next, probe: probe}, {name: "comp-cluster", next: clusterNext, probe: probe},
-		{name: "comp-mutate", next: mutateNext, probe: probe}}
+		{name: "comp-mutate", next: mutateNext, probe: probe}, {name: "comp-deep", next: deepNext, probe: probe}}
 }
